@@ -258,6 +258,30 @@ def rootcache_shard(acc, seed: int, part: int) -> None:
         n += 1
         if kind != "ok" or bytes(val) != PT or bytes(arg) != kb2:
             acc.violate("rootcache.key-argument-form", ["rootcache", part, "form", getattr(form, "__name__", "memoryview-of-bytearray")], {"outcome": kind, "value": repr(val)[:120], "argument_unchanged": bytes(arg) == kb2})
+    # one root key ID that successively holds DIFFERENT key values (a wrong key corrected, a restored backup, a test suite) in throw-away
+    # caches with throw-away key objects (so that object addresses are reused): a fresh cache depends on nothing but what was loaded into it.
+    # (Re-loading another value into a cache that has already derived seed keys from the old one is NOT demanded: a root key id names one
+    # value for ever, and the unchanged library keeps the seed keys it derived - tried, and dropped as more than the property states.)
+    def _load(c_, rk_, keyobj):
+        c_.load_key(key=keyobj, root_key_id=rk_.rkid, version=1, kdf_algorithm="SP800_108_CTR_HMAC", kdf_parameters=gkdi.pack_kdf_params(rk_.hash_name), secret_algorithm="DH", secret_parameters=rk_.params(), private_key_length=512, public_key_length=2048)
+
+    same_id = d.uuid()
+    prepared = []
+    for i in range(8):
+        rk4 = rk._replace(key=d.bytes(64), rkid=same_id)
+        prepared.append((rk4, cms.ref_encrypt(rk4, sids[0], PT, (360, 3 + i % 2, 5), cek=d.bytes(32), gcm_nonce_=d.bytes(12), key_nonce=d.bytes(32))))
+    addresses = []
+    for i, (rk4, blob) in enumerate(prepared):
+        c_ = dpapi_ng.KeyCache()
+        k_ = bytes(bytearray(rk4.key))  # a transient object, freed together with the cache at the end of this round
+        addresses.append(id(k_))
+        _load(c_, rk4, k_)
+        kind, val = seams.outcome_of(lambda: dpapi_ng.ncrypt_unprotect_secret(blob, cache=c_))
+        n += 1
+        if kind != "ok" or bytes(val) != PT:
+            acc.violate("rootcache.rekeyed", ["rootcache", part, "rekey", i], {"outcome": kind, "value": repr(val)[:120], "key object address reused": addresses.count(id(k_)) > 1})
+        del c_, k_
+    acc.stat_max("rekey_rounds_with_reused_key_object_address", len(addresses) - len(set(addresses)))
     acc.ev(n)
     acc.nt_counted(n)
     acc.outcome("rootcache-ok", n)
